@@ -329,7 +329,7 @@ def write_evidence(prop, ev):
 def first_error_theorem(build_log, props_file, theorems):
     """map the first Lean error in the property file to the enclosing theorem"""
     base = os.path.basename(props_file)
-    for m in re.finditer(r'error: (\S*' + re.escape(base) + r'):(\d+):(\d+): (.*)', build_log):
+    for m in re.finditer(r'error: ((?:\S*/)?' + re.escape(base) + r'):(\d+):(\d+): (.*)', build_log):
         line = int(m.group(2))
         name = None
         for n, ln in theorems:
@@ -365,7 +365,9 @@ def run_check(mod, tier, seed, replay=None):
         for em in extra_modules:
             theorems += theorem_names(os.path.join(LEAN, em.replace('.', '/') + '.lean'))
         if not ok_props and obligation_failure is None:
-            obligation_failure = first_error_theorem(log_props, props_file, theorem_names(props_file))
+            files = [props_file] + [os.path.join(LEAN, em.replace('.', '/') + '.lean') for em in extra_modules]
+            cands = [first_error_theorem(log_props, f, theorem_names(f)) for f in files]
+            obligation_failure = next((c for c in cands if c[0]), cands[0])
         # 3. audit
         axioms = {}
         if ok_props:
